@@ -1,4 +1,175 @@
-import Ruint.Model.Mul
-/-! # C02 — multiplication (placeholder; theorems follow) -/
+import Ruint.Lemmas.InvRing
+
+/-!
+# C02 — multiplication is exact: wrapping, overflow flag, widening product, ring inverse
+
+Property theorems only. Every theorem quantifies over **all** widths `bits` (and all pairs
+`(bits, bitsRhs)` for the widening product), including 0, 1 and non-multiples of 64, and all canonical
+operands. The functions are the executable models of `Model/Mul.lean` (`Ruint.Mul.*`, built on the
+limb kernels `Ruint.Limb.addmul` / `addmulN` of C15 at base `W = 2^64`) — the ones the correspondence
+driver `Drv/C02.lean` runs against the real `Uint` methods and operators.
+-/
 namespace Ruint.C02
+open Ruint Ruint.Mul Ruint.Add
+
+/-- `overflowing_mul`: canonical result, value `a·b mod 2^bits`, flag iff `a·b ≥ 2^bits`
+    (flag = `addmul`'s overflow OR bits of the top limb above the mask, as in `mul.rs`). -/
+theorem overflowing_mul_spec (bits : ℕ) (a b : List ℕ) (ha : Canon bits a) (hb : Canon bits b) :
+    Canon bits (overflowingMul bits a b).1
+    ∧ val (overflowingMul bits a b).1 = (val a * val b) % 2 ^ bits
+    ∧ ((overflowingMul bits a b).2 = true ↔ 2 ^ bits ≤ val a * val b) :=
+  overflowingMul_spec bits a b ha hb
+
+/-- `wrapping_mul` (and `*`, `*=` in all six operand shapes, which delegate to it): `addmul_n` path
+    with the unrolled 1–4 limb bodies; canonical result with value `a·b mod 2^bits`. -/
+theorem wrapping_mul_spec (bits : ℕ) (a b : List ℕ) (ha : Canon bits a) (hb : Canon bits b) :
+    Canon bits (wrappingMul bits a b) ∧ val (wrappingMul bits a b) = (val a * val b) % 2 ^ bits :=
+  wrappingMul_spec bits a b ha hb
+
+/-- the two multiplication kernels agree: `wrapping_mul` is the value of `overflowing_mul`. -/
+theorem wrapping_eq_overflowing (bits : ℕ) (a b : List ℕ) (ha : Canon bits a) (hb : Canon bits b) :
+    wrappingMul bits a b = (overflowingMul bits a b).1 := by
+  obtain ⟨w1, w2⟩ := wrappingMul_spec bits a b ha hb
+  obtain ⟨o1, o2, _⟩ := overflowingMul_spec bits a b ha hb
+  exact canon_ext bits _ _ w1 o1 (by rw [w2, o2])
+
+/-- `checked_mul = Some(a·b)` exactly when the true product fits, `None` otherwise. -/
+theorem checked_mul_spec (bits : ℕ) (a b : List ℕ) (ha : Canon bits a) (hb : Canon bits b) :
+    (val a * val b < 2 ^ bits →
+      ∃ r, checkedMul bits a b = some r ∧ Canon bits r ∧ val r = val a * val b)
+    ∧ (2 ^ bits ≤ val a * val b → checkedMul bits a b = none) := by
+  obtain ⟨h1, h2, h3⟩ := overflowingMul_spec bits a b ha hb
+  unfold checkedMul
+  generalize overflowingMul bits a b = r at *
+  obtain ⟨v, f⟩ := r
+  cases f
+  · simp only at h1 h2 h3 ⊢
+    have hlt : val a * val b < 2 ^ bits := by
+      by_contra hc; have := h3.2 (by omega); simp at this
+    exact ⟨fun _ => ⟨v, rfl, h1, by rw [h2, Nat.mod_eq_of_lt hlt]⟩, fun h => by omega⟩
+  · simp only at h3 ⊢
+    have := h3.1 trivial
+    exact ⟨fun h => by omega, fun _ => by simp⟩
+
+/-- `saturating_mul = min(a·b, 2^bits − 1)`. -/
+theorem saturating_mul_spec (bits : ℕ) (a b : List ℕ) (ha : Canon bits a) (hb : Canon bits b) :
+    Canon bits (saturatingMul bits a b)
+    ∧ val (saturatingMul bits a b) = min (val a * val b) (2 ^ bits - 1) := by
+  obtain ⟨h1, h2, h3⟩ := overflowingMul_spec bits a b ha hb
+  unfold saturatingMul
+  generalize overflowingMul bits a b = r at *
+  obtain ⟨v, f⟩ := r
+  cases f
+  · simp only at h1 h2 h3 ⊢
+    have hlt : val a * val b < 2 ^ bits := by
+      by_contra hc; have := h3.2 (by omega); simp at this
+    exact ⟨h1, by rw [h2, Nat.mod_eq_of_lt hlt]; omega⟩
+  · simp only at h3 ⊢
+    have := h3.1 trivial
+    exact ⟨(max_canon bits).1, by rw [(max_canon bits).2]; omega⟩
+
+/-- `widening_mul`: for **every** pair of widths the result is the full integer product, canonical
+    at width `bits + bitsRhs` (so the code's `debug_assert!` on the top limb holds), and the kernel
+    never reports overflow. -/
+theorem widening_mul_spec (bits bitsRhs : ℕ) (a b : List ℕ) (ha : Canon bits a)
+    (hb : Canon bitsRhs b) :
+    Canon (bits + bitsRhs) (wideningMul bits bitsRhs a b)
+    ∧ val (wideningMul bits bitsRhs a b) = val a * val b :=
+  ⟨(wideningMul_spec bits bitsRhs a b ha hb).1, (wideningMul_spec bits bitsRhs a b ha hb).2.1⟩
+
+/-- `widening_mul` as written, with its two `assert_eq!`s on the const-generic arguments: it returns
+    (the product) exactly when `BITS_RES = BITS + BITS_RHS` and `LIMBS_RES = nlimbs(BITS_RES)`. -/
+theorem widening_mul_generic (bits bitsRhs bitsRes limbsRes : ℕ) (a b : List ℕ) :
+    (bitsRes = bits + bitsRhs ∧ limbsRes = nlimbs bitsRes →
+      wideningMulG bits bitsRhs bitsRes limbsRes a b = some (wideningMul bits bitsRhs a b))
+    ∧ (¬ (bitsRes = bits + bitsRhs ∧ limbsRes = nlimbs bitsRes) →
+      wideningMulG bits bitsRhs bitsRes limbsRes a b = none) := by
+  constructor
+  · rintro ⟨h1, h2⟩
+    subst h1; subst h2
+    simp [wideningMulG, wideningMul, zero]
+  · intro h
+    have : bitsRes ≠ bits + bitsRhs ∨ limbsRes ≠ nlimbs bitsRes := by
+      by_contra hc; push Not at hc; exact h hc
+    simp [wideningMulG, this]
+
+/-- `inv_ring`: `Some(r)` with `a·r ≡ 1 (mod 2^bits)`, `r` canonical, exactly when `bits > 0` and `a`
+    is odd; `None` otherwise. -/
+theorem inv_ring_spec (bits : ℕ) (a : List ℕ) (ha : Canon bits a) :
+    (0 < bits ∧ val a % 2 = 1 →
+      ∃ r, invRing bits a = some r ∧ Canon bits r ∧ (val a * val r) % 2 ^ bits = 1 % 2 ^ bits)
+    ∧ (¬ (0 < bits ∧ val a % 2 = 1) → invRing bits a = none) :=
+  invRing_spec bits a ha
+
+/-- the statement's "exactly": an inverse is returned iff `bits > 0 ∧ a` odd. -/
+theorem inv_ring_some_iff (bits : ℕ) (a : List ℕ) (ha : Canon bits a) :
+    (∃ r, invRing bits a = some r) ↔ (0 < bits ∧ val a % 2 = 1) := by
+  obtain ⟨h1, h2⟩ := invRing_spec bits a ha
+  constructor
+  · rintro ⟨r, hr⟩
+    by_contra hc
+    rw [h2 hc] at hr
+    simp at hr
+  · intro h
+    obtain ⟨r, hr, _⟩ := h1 h
+    exact ⟨r, hr⟩
+
+/-- no even value has an inverse at all, so `None` is the only correct answer there. -/
+theorem even_has_no_inverse (bits a r : ℕ) (hb : 0 < bits) (ha : a % 2 = 0) :
+    (a * r) % 2 ^ bits ≠ 1 % 2 ^ bits := by
+  intro h
+  have h2 : 2 ∣ 2 ^ bits := dvd_pow_self 2 (by omega)
+  have h1 : 1 % 2 ^ bits = 1 := by
+    apply Nat.mod_eq_of_lt
+    calc 1 < 2 ^ 1 := by norm_num
+      _ ≤ 2 ^ bits := Nat.pow_le_pow_right (by norm_num) hb
+  rw [h1] at h
+  have := Nat.mod_mod_of_dvd (a * r) h2
+  rw [h] at this
+  have h3 : (a * r) % 2 = 0 := by rw [Nat.mul_mod, ha]; simp
+  omega
+
+/-- iterator `Product` equals the wrapped mathematical product (`ZERO` at width 0). -/
+theorem product_spec (bits : ℕ) (l : List (List ℕ)) (hl : ∀ x ∈ l, Canon bits x) :
+    Canon bits (product bits l) ∧ val (product bits l) = (l.map val).prod % 2 ^ bits := by
+  unfold product
+  rcases Nat.eq_zero_or_pos bits with h0 | hpos
+  · subst h0
+    simp only [if_true]
+    exact ⟨(zero_canon 0).1, by rw [(zero_canon 0).2]; simp [Nat.mod_one]⟩
+  · have hne : bits ≠ 0 := by omega
+    simp only [hne, if_false]
+    have h1 : 1 < 2 ^ bits := by
+      calc 1 < 2 ^ 1 := by norm_num
+        _ ≤ 2 ^ bits := Nat.pow_le_pow_right (by norm_num) hpos
+    have hone : Canon bits (one bits) ∧ val (one bits) = 1 :=
+      ⟨canon_toLimbs bits 1 h1, val_toLimbs_of_lt bits 1 h1⟩
+    have key : ∀ (l : List (List ℕ)) (acc : List ℕ), (∀ x ∈ l, Canon bits x) → Canon bits acc →
+        Canon bits (l.foldl (wrappingMul bits) acc)
+        ∧ val (l.foldl (wrappingMul bits) acc) = (val acc * (l.map val).prod) % 2 ^ bits := by
+      intro l
+      induction l with
+      | nil =>
+        intro acc _ hacc
+        exact ⟨hacc, by simp [Nat.mod_eq_of_lt hacc.val_lt]⟩
+      | cons x xs ih =>
+        intro acc hx hacc
+        obtain ⟨w1, w2⟩ := wrappingMul_spec bits acc x hacc (hx x (by simp))
+        obtain ⟨i1, i2⟩ := ih (wrappingMul bits acc x) (fun y hy => hx y (by simp [hy])) w1
+        refine ⟨i1, ?_⟩
+        simp only [List.foldl_cons, List.map_cons, List.prod_cons]
+        rw [i2, w2, Nat.mod_mul_mod, Nat.mul_assoc]
+    have := key l (one bits) hl hone.1
+    rw [hone.2, Nat.one_mul] at this
+    exact this
+
+/-! Non-vacuity: concrete non-trivial instances evaluated by the kernel. -/
+-- U65: 2^64 · 2^64 overflows through the kernel flag (result limbs zero)
+example : overflowingMul 65 [0, 1] [0, 1] = ([0, 0], true) := by decide +kernel
+-- U65: (2^64+1)·1 fits; 2^63 · 4 = 2^65 overflows only through the masked top limb
+example : overflowingMul 65 [1 <<< 63, 0] [4, 0] = ([0, 0], true) := by decide +kernel
+example : wideningMul 2 3 [3] [7] = [21] := by decide +kernel
+example : invRing 8 [3] = some [171] ∧ invRing 8 [2] = none ∧ invRing 0 [] = none := by decide +kernel
+example : invRing 128 [3, 0] = some [0xaaaaaaaaaaaaaaab, 0xaaaaaaaaaaaaaaaa] := by decide +kernel
+
 end Ruint.C02
